@@ -1,11 +1,129 @@
 import Driver.Util
-/- line-protocol commands of the Lexical family (stub: filled in by the family's build) -/
+import AsyncFix.Model.Lexical
+import AsyncFix.Model.LexSpec
+import AsyncFix.Model.LexClass
+/-
+Line-protocol commands of the Lexical family (C19).  A value (Python `str`) is the token
+`u` followed by six hex digits per code point (`u` alone = the empty string); `n` = a non-str object.
+Type names are `x<hex of UTF-8>` tokens.
+
+  lex.v <type> <tag16:0|1> <maxdigits> <value> [<enumerator> …]  ↦ ok | fme | raised:<kind>
+  lex.d <type> <maxdigits> <value>                                 ↦ 1 | 0        (the `deviation` predicate)
+  lex.s <dtype> <tag16:0|1> <value>                                ↦ 1 | 0        (the SPEC recogniser)
+  lex.n <type> <maxdigits> <value>                                 ↦ <narrow marks,>
+  lex.int <maxdigits> <value>                                      ↦ none | <int>
+  lex.float <value>                                                ↦ valueError | nonFinite | finite
+  lex.strp <ymd|ym|hms|hmsf|ts|tsf> <value>                        ↦ ok y m d H M S f | noMatch | unconverted | badDate | badTime
+  lex.cls <type>                                                   ↦ the dispatch branch
+  lex.tables <digits|spaces>                                       ↦ the compiled Unicode tables
+-/
 namespace Driver.Lexical
+open AsyncFix.Py AsyncFix.Model AsyncFix.Model.Lexical
 
 structure St where
   unit : Unit := ()
 
+def cpList : List Char → Option (List Nat)
+  | [] => some []
+  | a :: b :: c :: d :: e :: f :: rest => do
+      let a ← Driver.hexVal a
+      let b ← Driver.hexVal b
+      let c ← Driver.hexVal c
+      let d ← Driver.hexVal d
+      let e ← Driver.hexVal e
+      let f ← Driver.hexVal f
+      let r ← cpList rest
+      pure ((((((a * 16 + b) * 16 + c) * 16 + d) * 16 + e) * 16 + f) :: r)
+  | _ => none
+
+/-- `u…` ↦ code points -/
+def tokCps (t : String) : Option Str :=
+  match t.toList with
+  | 'u' :: rest => cpList rest
+  | _ => none
+
+def tokVal (t : String) : Option PyVal :=
+  if t == "n" then some .other else (tokCps t).map .str
+
+def tokBool (t : String) : Option Bool :=
+  if t == "1" then some true else if t == "0" then some false else none
+
+def allSome {α : Type} : List (Option α) → Option (List α)
+  | [] => some []
+  | none :: _ => none
+  | some a :: r => (allSome r).map (a :: ·)
+
+def dtypeOf (s : String) : Option LexSpec.DType :=
+  match s with
+  | "int" => some .int | "posInt" => some .posInt | "dayOfMonth" => some .dayOfMonth
+  | "float" => some .float | "string" => some .string | "char" => some .char
+  | "boolean" => some .boolean | "code2" => some (.code 2) | "code3" => some (.code 3)
+  | "code4" => some (.code 4) | "date" => some .date | "timestamp" => some .timestamp
+  | "timeOnly" => some .timeOnly | "monthYear" => some .monthYear | "data" => some .data
+  | "length" => some .length
+  | _ => none
+
+def fmtOf (s : String) : Option (List Dir) :=
+  match s with
+  | "ymd" => some fmtYmd | "ym" => some fmtYm | "hms" => some fmtHMS
+  | "hmsf" => some (fmtHMS ++ [.lit 46, .f]) | "ts" => some fmtTimestamp
+  | "tsf" => some (fmtTimestamp ++ [.lit 46, .f])
+  | _ => none
+
+def ftypeName : FType → String
+  | .int => "int" | .posInt => "posInt" | .dayOfMonth => "dayOfMonth" | .float => "float"
+  | .string => "string" | .char => "char" | .boolean => "boolean" | .code n => s!"code{n}"
+  | .date => "date" | .timestamp => "timestamp" | .timeOnly => "timeOnly" | .monthYear => "monthYear"
+  | .unchecked => "unchecked" | .unsupported => "unsupported"
+
+def resStr : Res → String
+  | .ok => "ok" | .fme => "fme" | .raised k => "raised:" ++ k
+
+def b01 (b : Bool) : String := if b then "1" else "0"
+
 def handle (st : St) (cmd : String) (args : List String) : St × String :=
-  (st, "bad-op")
+  (st, match cmd, args with
+  | "v", ty :: t16 :: md :: v :: enums =>
+    match Driver.tokStr ty, tokBool t16, md.toNat?, tokVal v, allSome (enums.map tokCps) with
+    | some ty, some t16, some md, some v, some es =>
+      resStr (validateValue { maxStrDigits := md } { tag16 := t16, ftype := classify ty, values := es } v)
+    | _, _, _, _, _ => "bad-op"
+  | "d", [ty, md, v] =>
+    match Driver.tokStr ty, md.toNat?, tokCps v with
+    | some ty, some md, some s => b01 (LexClass.deviation { maxStrDigits := md } (classify ty) s)
+    | _, _, _ => "bad-op"
+  | "s", [dt, t16, v] =>
+    match dtypeOf dt, tokBool t16, tokCps v with
+    | some dt, some t16, some s => b01 (LexSpec.fieldLexical t16 dt s)
+    | _, _, _ => "bad-op"
+  | "n", [ty, md, v] =>
+    match Driver.tokStr ty, md.toNat?, tokCps v with
+    | some ty, some md, some s =>
+      "n=" ++ ",".intercalate (LexClass.narrowMarks { maxStrDigits := md } (classify ty) s)
+    | _, _, _ => "bad-op"
+  | "int", [md, v] =>
+    match md.toNat?, tokCps v with
+    | some md, some s => match pyInt md s with
+      | some i => toString i
+      | none => "none"
+    | _, _ => "bad-op"
+  | "float", [v] =>
+    match tokCps v with
+    | some s => match pyFloat s with
+      | .valueError => "valueError" | .nonFinite => "nonFinite" | .finite => "finite"
+    | none => "bad-op"
+  | "strp", [f, v] =>
+    match fmtOf f, tokCps v with
+    | some f, some s => match strptime f s with
+      | .ok t => s!"ok {t.year.getD 1900} {t.month} {t.day} {t.hour} {t.minute} {t.second} {t.micro}"
+      | .noMatch => "noMatch" | .unconverted => "unconverted" | .badDate => "badDate" | .badTime => "badTime"
+    | _, _ => "bad-op"
+  | "cls", [ty] =>
+    match Driver.tokStr ty with
+    | some ty => ftypeName (classify ty)
+    | none => "bad-op"
+  | "tables", ["digits"] => " ".intercalate (AsyncFix.Generated.UniTables.decimalZeros.map toString)
+  | "tables", ["spaces"] => " ".intercalate (AsyncFix.Generated.UniTables.spaces.map toString)
+  | _, _ => "bad-op")
 
 end Driver.Lexical
